@@ -47,10 +47,16 @@ def setup_slot(slot):
         sh(f"git checkout -q --detach $(git -C {REPO} rev-parse HEAD)", cwd=repo)
     # fresh copy of /verif sources (cheap), keep the slot's target dir
     os.makedirs(verif, exist_ok=True)
-    sh(f"rsync -a --delete --exclude harness/target --exclude .git --exclude fuzz/target --exclude fuzz/corpus --exclude replays --exclude evidence {VERIF}/ {verif}/")
+    # the scratch copy is the COMMITTED state of /verif (git archive), so editing /verif while a sensitivity run is in
+    # progress cannot give it a half-edited harness; commit before running
+    sh(f"find {verif} -mindepth 1 -maxdepth 1 ! -name harness ! -name fuzz -exec rm -rf {{}} +")
+    sh(f"find {verif}/harness -mindepth 1 -maxdepth 1 ! -name target -exec rm -rf {{}} + 2>/dev/null; find {verif}/fuzz -mindepth 1 -maxdepth 1 ! -name target -exec rm -rf {{}} + 2>/dev/null")
+    sh(f"git -C {VERIF} archive HEAD | tar -x -C {verif}")
     os.makedirs(f"{verif}/evidence", exist_ok=True)
     if not os.path.exists(f"{verif}/harness/target") and os.path.exists(f"{VERIF}/harness/target"):
         sh(f"cp -a {VERIF}/harness/target {verif}/harness/target")
+    if not os.path.exists(f"{verif}/fuzz/target") and os.path.exists(f"{VERIF}/fuzz/target"):
+        sh(f"cp -a {VERIF}/fuzz/target {verif}/fuzz/target")
     ct = f"{verif}/harness/fqv/Cargo.toml"
     s = open(ct).read().replace('path = "/repo"', f'path = "{repo}"')
     open(ct, "w").write(s)
@@ -84,7 +90,12 @@ def run_mutant(slot, m, checks, tier, skip_tests):
     fired = {}
     for c in checks:
         t0 = time.time()
-        r = sh(f"{verif}/harness/target/release/fqv {c} {tier}", cwd=verif, env={"FQV_VERIF_DIR": verif})
+        if tier == "fuzz":
+            # coverage-guided campaign only (the evidence file it merges into must exist: run the quick tier first)
+            sh(f"{verif}/harness/target/release/fqv {c} quick", cwd=verif, env={"FQV_VERIF_DIR": verif})
+            r = sh(f"{verif}/fuzz/run_campaign.sh {c}", cwd=verif, env={"FQV_VERIF_DIR": verif, "FQV_FUZZ_RUNS": os.environ.get("FQV_FUZZ_RUNS", "30000")})
+        else:
+            r = sh(f"{verif}/harness/target/release/fqv {c} {tier}", cwd=verif, env={"FQV_VERIF_DIR": verif})
         lines = r.stdout.splitlines()
         viol = [l for l in lines if l.startswith("VIOLATION")]
         detail = [l.strip() for l in lines if l.strip().startswith("detail:")]
@@ -107,8 +118,8 @@ def run_mutant(slot, m, checks, tier, skip_tests):
                         doc["sentinel_for"] = f"{m['id']}: {m.get('note', '')[:200]}"
                         doc.pop("seed", None)
                         json.dump(doc, open(dst, "w"), indent=1)
-            except Exception:
-                pass
+            except Exception as ex:
+                fired[c]["harvest_error"] = repr(ex)
     res["fired"] = fired
     res["detected_by"] = [c for c, v in fired.items() if v["rc"] == 1 and v["violation"]]
     res["status"] = "ok"
